@@ -96,8 +96,13 @@ func (e *c07Env) serve(ctx context.Context, i int) (byte, error) {
 		}
 	}
 	e.arrive[i] = mc.Now()
-	if nd.kind == 'E' {
+	switch nd.kind {
+	case 'E':
 		return 0, errScripted
+	case 'N': // the node does not have the data: HTTP 404 as the client library reports it
+		return 0, &api.Error{Method: "GET", Endpoint: "/scripted", StatusCode: 404, Data: []byte("not found")}
+	case 'U': // the node cannot serve at present: HTTP 503
+		return 0, &api.Error{Method: "GET", Endpoint: "/scripted", StatusCode: 503, Data: []byte("unavailable")}
 	}
 	return nd.kind, nil
 }
@@ -234,22 +239,26 @@ func (p bpProv) Proposal(ctx context.Context, _ *api.ProposalOpts) (*api.Respons
 	if err != nil {
 		return nil, err
 	}
+	// values of realistic magnitude, in Wei: A pays 20 ETH for the execution payload (above 2^64 Wei), B 2 ETH,
+	// the invalid I 30 ETH; the consensus reward is 0.03 ETH throughout
 	fee := bellatrix.ExecutionAddress{1}
-	val := int64(200)
+	eth := new(big.Int).Exp(big.NewInt(10), big.NewInt(18), nil)
+	exec := new(big.Int).Mul(big.NewInt(20), eth)
 	switch k {
 	case 'B':
-		val = 100
+		exec = new(big.Int).Mul(big.NewInt(2), eth)
 	case 'I':
 		fee = bellatrix.ExecutionAddress{}
-		val = 300
+		exec = new(big.Int).Mul(big.NewInt(30), eth)
 	}
+	cons := new(big.Int).Div(new(big.Int).Mul(big.NewInt(3), eth), big.NewInt(100))
 	blk := &bellatrix.BeaconBlock{Slot: c07Slot, ParentRoot: root(k), Body: &bellatrix.BeaconBlockBody{
 		ETH1Data:         &phase0.ETH1Data{BlockHash: make([]byte, 32)},
 		SyncAggregate:    &altair.SyncAggregate{SyncCommitteeBits: bitfield.NewBitvector512()},
 		ExecutionPayload: &bellatrix.ExecutionPayload{FeeRecipient: fee},
 	}}
 	return &api.Response[*api.VersionedProposal]{Data: &api.VersionedProposal{Version: spec.DataVersionBellatrix, Bellatrix: blk,
-		ConsensusValue: big.NewInt(val), ExecutionValue: big.NewInt(val)}, Metadata: map[string]any{}}, nil
+		ConsensusValue: cons, ExecutionValue: exec}, Metadata: map[string]any{}}, nil
 }
 
 func bpLabel(r *api.Response[*api.VersionedProposal], err error) (byte, error) {
@@ -519,7 +528,7 @@ func c07Strats() []c07Strat {
 				return brLabel(r, err)
 			}
 		}},
-		{name: "beaconblockheader/first", fam: "first", kinds: "ABE", mk: func(e *c07Env) func(context.Context) (byte, error) {
+		{name: "beaconblockheader/first", fam: "first", kinds: "ABENU", mk: func(e *c07Env) func(context.Context) (byte, error) {
 			m := map[string]eth2client.BeaconBlockHeadersProvider{}
 			for i, n := range names(len(e.nodes)) {
 				m[n] = bhProv{e, i}
@@ -540,7 +549,7 @@ func c07Strats() []c07Strat {
 				return e.relabel()
 			}
 		}},
-		{name: "signedbeaconblock/first", fam: "first", kinds: "ABE", mk: func(e *c07Env) func(context.Context) (byte, error) {
+		{name: "signedbeaconblock/first", fam: "first", kinds: "ABENU", mk: func(e *c07Env) func(context.Context) (byte, error) {
 			m := map[string]eth2client.SignedBeaconBlockProvider{}
 			for i, n := range names(len(e.nodes)) {
 				m[n] = sbProv{e, i}
@@ -822,7 +831,7 @@ func init() {
 	hx.Register(&hx.Prop{
 		ID:    "C07",
 		Title: "Multi-node strategies return the right valid answer, in bounded time",
-		Rule: "for each of the strategy implementations and n = 1..3 scripted beacon nodes: every assignment of response kind (valid-high, valid-low, for the attestation data majority also a value sharing the head of valid-high but differing in its source, invalid where the strategy has a validity rule, error) and latency (0, <soft, =soft, between, =timeout, never, late ignoring cancellation) per node, and for majority every threshold 1..n; per strategy also two calls in a row on one instance, a late answer to the first arriving in between (the second returns what its nodes give, the response object of the first is unchanged by it); " +
+		Rule: "for each of the strategy implementations and n = 1..3 scripted beacon nodes: every assignment of response kind (valid-high, valid-low, for the attestation data majority also a value sharing the head of valid-high but differing in its source, invalid where the strategy has a validity rule, error; for the header and signed-block strategies also the API errors 404 and 503, which they tell apart) and latency (0, <soft, =soft, between, =timeout, never, late ignoring cancellation) per node, and for majority every threshold 1..n; per strategy also two calls in a row on one instance, a late answer to the first arriving in between (the second returns what its nodes give, the response object of the first is unchanged by it); " +
 			"per assignment every order of same-instant events and every select tie within the schedule bound (n<=2: preemption bound 1 quick / 2 thorough; n=3: deviation bound 0 quick / 1 thorough); oracle on the observed return instant against the arrival sets; non-trivial = more than one node or a select tie; distinct = distinct (family, result, return second) outcomes",
 		Assumptions: []string{
 			"nodes honour request cancellation except the explicit 'late ignoring cancellation' latency",
